@@ -117,7 +117,7 @@ def ensure(configs, repo='/repo', jobs=None):
     errs = []
     cold = 0
     t0 = time.time()
-    with concurrent.futures.ThreadPoolExecutor(max_workers=jobs or min(16, os.cpu_count() or 4)) as ex:
+    with concurrent.futures.ThreadPoolExecutor(max_workers=jobs or int(os.environ.get('USA_JOBS', '0') or 0) or min(16, os.cpu_count() or 4)) as ex:
         for name, cfg, out, dt, err in ex.map(_extract_one, work):
             if out is None:
                 errs.append('%s/%s: %s' % (cfg, name, err.strip().splitlines()[-1] if err.strip() else 'no output'))
